@@ -128,7 +128,8 @@ impl<'tcx> Cx<'tcx> {
 
     fn span(&self, sp: rustc_span::Span) -> String {
         let sm = self.tcx.sess.source_map();
-        let norm = |s: String| s.split_whitespace().collect::<Vec<_>>().join(" ");
+        // keys are built from these snippets: comments and layout must not matter
+        let norm = |s: String| strip_comments(&s).split_whitespace().collect::<Vec<_>>().join(" ");
         let exp = sp.from_expansion();
         let call = sp.source_callsite();
         let snip = norm(sm.span_to_snippet(sp).unwrap_or_default());
@@ -1348,6 +1349,62 @@ impl rustc_driver::Callbacks for Cb {
         std::fs::write(&path, out).unwrap();
         Compilation::Continue
     }
+}
+
+/// Remove `// ...` and `/* ... */` comments (outside string literals) from a source snippet.
+fn strip_comments(src: &str) -> String {
+    let b: Vec<char> = src.chars().collect();
+    let mut out = String::with_capacity(src.len());
+    let mut i = 0;
+    while i < b.len() {
+        let c = b[i];
+        if c == '"' {
+            // string literal: copy verbatim up to the closing quote
+            out.push(c);
+            i += 1;
+            while i < b.len() {
+                out.push(b[i]);
+                if b[i] == '\\' && i + 1 < b.len() {
+                    out.push(b[i + 1]);
+                    i += 2;
+                    continue;
+                }
+                if b[i] == '"' {
+                    i += 1;
+                    break;
+                }
+                i += 1;
+            }
+            continue;
+        }
+        if c == '/' && i + 1 < b.len() && b[i + 1] == '/' {
+            while i < b.len() && b[i] != '\n' {
+                i += 1;
+            }
+            out.push(' ');
+            continue;
+        }
+        if c == '/' && i + 1 < b.len() && b[i + 1] == '*' {
+            let mut depth = 1;
+            i += 2;
+            while i < b.len() && depth > 0 {
+                if b[i] == '/' && i + 1 < b.len() && b[i + 1] == '*' {
+                    depth += 1;
+                    i += 2;
+                } else if b[i] == '*' && i + 1 < b.len() && b[i + 1] == '/' {
+                    depth -= 1;
+                    i += 2;
+                } else {
+                    i += 1;
+                }
+            }
+            out.push(' ');
+            continue;
+        }
+        out.push(c);
+        i += 1;
+    }
+    out
 }
 
 fn main() {
